@@ -40,6 +40,17 @@ def weak_hierarchy():
     return lsl.GraphBuilder().add(y).build_model()
 
 
+def weak_with_dist():
+    """a weak variable (its value is computed) that carries a distribution: the distribution is evaluated at (`Dist.at`) a calculation"""
+    import liesel.model as lsl
+    tfd, tfb = _tf()
+    mu = lsl.param(jnp.array([0.3, -0.2]), lsl.Dist(tfd.Normal, loc=0.0, scale=lsl.Var(2.0, name="mu_scale")), name="mu")
+    contrast = lsl.Var(lsl.Calc(lambda m: m[0] - 2.0 * m[1], mu), lsl.Dist(tfd.Normal, loc=lsl.Var(0.5, name="c_loc"), scale=0.7), name="contrast")
+    contrast.parameter = True
+    y = lsl.obs(jnp.array([0.4, -0.7]), lsl.Dist(tfd.Normal, loc=mu, scale=1.0), name="y")
+    return lsl.GraphBuilder().add(y, contrast).build_model()
+
+
 def dist_without_var():
     """a distribution node that belongs to no variable: part of log_prob, of neither log_lik nor log_prior"""
     import liesel.model as lsl
@@ -166,6 +177,7 @@ FAMILY = {
     "regression(transformed scale)": lambda: regression(True, True),
     "regression(per_obs=False)": lambda: regression(False, True),
     "weak-hierarchy": weak_hierarchy,
+    "weak variable with a distribution": weak_with_dist,
     "dist-without-var": dist_without_var,
     "neither-observed-nor-parameter": neither_flag,
     "observed-and-parameter": both_flags,
